@@ -23,9 +23,18 @@ import numpy as np
 from mc.dasksched import _reaches_abtem
 
 
+def kind(key):
+    """task kind: the key name without its hash token"""
+    import re
+
+    name = str(key[0] if isinstance(key, tuple) else key)
+    return re.sub(r"-[0-9a-f]{6,}$", "", name)
+
+
 class PreemptRun:
     def __init__(self, point, ia, ib, k, nth_point=0, match=None):
         self.ia, self.ib, self.k, self.nth_point, self.match = ia, ib, k, nth_point, match
+        self.point_kinds = []  # (kind of first candidate, kind of second candidate) at every scheduling point with >= 2 candidates
         self.calls_in_a = None
         self.pair = None
         self.used = False
@@ -61,6 +70,8 @@ class PreemptRun:
             if self.match is not None:  # only tasks whose key contains the pattern qualify (e.g. the fused multislice blocks)
                 qual = [c_ for c_, nm in zip(cand, names) if self.match in nm]
                 cand = qual + [c_ for c_ in cand if c_ not in qual] if len(qual) >= 2 else cand[:1]
+            if len(cand) >= 2:
+                self.point_kinds.append((kind(cand[0]), kind(cand[1])))
             if not self.used and len(cand) > max(self.ia, self.ib):
                 if seen_points == self.nth_point:
                     a, b = cand[self.ia], cand[self.ib]
@@ -119,6 +130,18 @@ def _run_pair(fa, fb, k):
     if "a_exc" in box:
         raise box["a_exc"]
     return box["a"], box["b"], count[0], parked[0]
+
+
+def distinct_points(execute, match=None):
+    """indices (nth_point) of the first scheduling point for every distinct pair of task kinds that are ready together"""
+    r = PreemptRun(0, 0, 1, -1, nth_point=10 ** 9, match=match)
+    execute(r.get)
+    seen, out = set(), []
+    for i, pk in enumerate(r.point_kinds):
+        if pk not in seen:
+            seen.add(pk)
+            out.append((i, pk))
+    return out
 
 
 def explore_pair(execute, same, max_points=400, nth_point=0, match=None, chunk=(0, 1), roles=("A-preempted-by-B", "B-preempted-by-A")):
